@@ -150,7 +150,7 @@ def mgetBody : List Val → Option Bytes
   | v :: r => do
       let t ← mgetText v
       let rest ← mgetBody r
-      pure ((if t == [] then nilBulk else bulkStr t) ++ rest)
+      pure ((if v == .nil then nilBulk else bulkStr t) ++ rest)
 
 /-- :128 handleMGet — values are looked up once per distinct key, then rendered per argument;
     `GetValues` on a repeated key gives the same answer, so the per-argument list is used. -/
@@ -366,8 +366,8 @@ def handleGetdel (_c : Ctx) (cmd : List Bytes) : Prog Res :=
     .call (.deleteKey key) fun _ => plusV (vs.headD .nil) fun r => .ret (.ok r)
   | _ => .ret (.err wrongArgs)
 
-/-- :722 handleGetex. `exCommand == "persist"` compares an upper-cased token with a lower-case
-    literal and is never true; PERSIST is only reached with a (ignored, integer) time argument. -/
+/-- :722 handleGetex. PERSIST is recognised right after the key (a time argument after it is ignored,
+    whatever it is); the other options need an integer time argument. -/
 def handleGetex (c : Ctx) (cmd : List Bytes) : Prog Res :=
   if cmd.length < 2 || cmd.length > 4 then .ret (.err wrongArgs) else
   match cmd with
@@ -378,23 +378,25 @@ def handleGetex (c : Ctx) (cmd : List Bytes) : Prog Res :=
     plusV (vs.headD .nil) fun reply =>
     match rest with
     | [] => .ret (.ok reply)
-    | [_] => .ret (.ok reply)
-    | opt :: n :: _ =>
+    | opt :: rest' =>
       if !isAscii opt then .unmod "non-ASCII option token" else
-      match parseInt64 n with
-      | none => .ret (.err (b "expire time must be integer"))
-      | some n =>
-        let o := toUpper opt
-        let setTo (t : Option (Option Int)) : Prog Res :=
-          match t with
-          | none => .unmod "expiry argument outside modelled time range"
-          | some e => .call (.setExpiry key e false) fun _ => .ret (.ok reply)
-        if o == b "EX" then setTo ((addSeconds c.now n).map some)
-        else if o == b "PX" then setTo ((addMillis c.now n).map some)
-        else if o == b "EXAT" then setTo ((atSeconds n).map some)
-        else if o == b "PXAT" then setTo ((atMillis n).map some)
-        else if o == b "PERSIST" then setTo (some none)
-        else .ret (.err (b "unknown option " ++ o ++ b " -- '" ++ fmtStrSlice cmd ++ b "'"))
+      let o := toUpper opt
+      if o == b "PERSIST" then .call (.setExpiry key none false) fun _ => .ret (.ok reply) else
+      match rest' with
+      | [] => .ret (.ok reply)
+      | n :: _ =>
+        match parseInt64 n with
+        | none => .ret (.err (b "expire time must be integer"))
+        | some n =>
+          let setTo (t : Option Int) : Prog Res :=
+            match t with
+            | none => .unmod "expiry argument outside modelled time range"
+            | some e => .call (.setExpiry key (some e) false) fun _ => .ret (.ok reply)
+          if o == b "EX" then setTo (addSeconds c.now n)
+          else if o == b "PX" then setTo (addMillis c.now n)
+          else if o == b "EXAT" then setTo (atSeconds n)
+          else if o == b "PXAT" then setTo (atMillis n)
+          else .ret (.err (b "unknown option " ++ o ++ b " -- '" ++ fmtStrSlice cmd ++ b "'"))
   | _ => .ret (.err wrongArgs)
 
 /-- :789 handleType — `reflect.TypeOf(nil).Kind()` is a nil-pointer panic -/
@@ -433,7 +435,7 @@ def handleSetRange (_c : Ctx) (cmd : List Bytes) : Prog Res :=
     | none => .unmod "AdaptType outside exact numeric domain"
     | some none => .ret (.err (b "offset must be an integer"))
     | some (some offset) =>
-      if !(ex.headD false) then .ret (.ok (intReply newStr.length)) else
+      if !(ex.headD false) then setOrErr [(key, .str newStr)] (.ret (.ok (intReply newStr.length))) else
       .call (.getValues [key]) fun (vs : List Val) =>
       match vs.headD .nil with
       | .str str =>
@@ -463,18 +465,26 @@ def handleStrLen (_c : Ctx) (cmd : List Bytes) : Prog Res :=
     | _ => .ret (.err (b "value at key " ++ key ++ b " is not a string"))
   | _ => .ret (.err wrongArgs)
 
-/-- index arithmetic of handleSubStr on the stored string — Go slice expression `value[start:end]`
-    panics unless 0 ≤ start ≤ end ≤ len -/
-def subStrPure (value : Bytes) (start end_ : Int) : Outcome Res :=
-  let len : Int := value.length
+/-- index arithmetic of handleSubStr on the stored string: negative indices count from the end, both
+    indices are clamped into `[0, len]`, an end index not before the start is made exclusive; a start
+    after the end selects the bytes in between, reversed. The Go slice expression `value[lo:hi]` is
+    always within bounds (`subStr_bounds`). -/
+def subStrIdx (len start end_ : Int) : Int × Int :=
   let start := if start < 0 then len - start.natAbs else start
   let end_ := if end_ < 0 then len - end_.natAbs else end_
+  let start := if start < 0 then 0 else start
+  let start := if start > len then len else start
+  let end_ := if end_ < 0 then 0 else end_
+  let end_ := if end_ > len then len else end_
   let end_ := if end_ ≥ 0 && end_ ≥ start then end_ + 1 else end_
   let end_ := if end_ > len then len else end_
-  let reversed := decide (start > end_)
-  let lo := if reversed then end_ else start
-  let hi := if reversed then start else end_
-  if lo < 0 || hi > len then .panic "slice bounds out of range" else
+  (start, end_)
+
+def subStrPure (value : Bytes) (start end_ : Int) : Outcome Res :=
+  let se := subStrIdx value.length start end_
+  let reversed := decide (se.1 > se.2)
+  let lo := if reversed then se.2 else se.1
+  let hi := if reversed then se.1 else se.2
   let str := (value.drop lo.toNat).take (hi - lo).toNat
   if reversed then
     if !isAscii str then .unmod "reversed GETRANGE on non-ASCII (rune conversion)"
